@@ -76,7 +76,7 @@ type channel struct {
 	inReqCmdChan  chan *RequestCommand
 	inRespCmdChan chan *ResponseCommand
 	inSesChan     chan *Session
-	sendMu        sync.Mutex
+	sendSem       chan struct{} // the turn to write to the transport; taken with the caller's context
 	rcvMu         sync.Mutex
 	startRcv      sync.Once
 	stopRcv       sync.Once
@@ -105,6 +105,7 @@ func newChannel(t Transport, bufferSize int) *channel {
 		rcvDone:          make(chan struct{}),
 		processingCmds:   make(map[string]chan *ResponseCommand),
 		processingCmdsMu: sync.RWMutex{},
+		sendSem:          make(chan struct{}, 1),
 	}
 	return &c
 }
@@ -275,11 +276,31 @@ func (c *channel) sendSession(ctx context.Context, ses *Session) error {
 		return fmt.Errorf("send session: cannot do in the %v state", state)
 	}
 
+	// session envelopes take their turn with the data envelopes: transports do not support concurrent writers
+	if err := c.lockSend(ctx); err != nil {
+		return fmt.Errorf("send session: %w", err)
+	}
+	defer c.unlockSend()
+
 	err := c.transport.Send(ctx, ses)
 	if err != nil {
 		return fmt.Errorf("send session: transport error: %w", err)
 	}
 	return nil
+}
+
+// lockSend waits for the caller's turn to write to the transport, or for its context to end.
+func (c *channel) lockSend(ctx context.Context) error {
+	select {
+	case c.sendSem <- struct{}{}:
+		return nil
+	case <-ctx.Done():
+		return ctx.Err()
+	}
+}
+
+func (c *channel) unlockSend() {
+	<-c.sendSem
 }
 func (c *channel) receiveSession(ctx context.Context) (*Session, error) {
 	if ctx == nil {
@@ -371,8 +392,10 @@ func (c *channel) sendToTransport(ctx context.Context, e envelope, action string
 		return err
 	}
 
-	c.sendMu.Lock()
-	defer c.sendMu.Unlock()
+	if err := c.lockSend(ctx); err != nil {
+		return fmt.Errorf("%v: %w", action, err)
+	}
+	defer c.unlockSend()
 
 	if err := c.transport.Send(ctx, e); err != nil {
 		return fmt.Errorf("%v: %w", action, err)
